@@ -961,7 +961,41 @@ fn run_history(args: &Args, hist: u64, seed: u64, n_ops: u64, every: u64, emptyc
         let s1 = "10.1.104.0/24 => 64512".to_string();
         let m1 = "10.0.64.0/24-26 => 64512".to_string();
         enum P { Roas(Vec<String>, Vec<String>), Ent(u32), Aspa(&'static str), Router(u32), Check(&'static str) }
-        let script: Vec<(&str, P)> = vec![
+        // (0) Threshold crossings that are not pure additions / pure removals, under the crossable configurations
+        // (deaggregate d / aggregate g = 1/2 and 3/5; 90/100 would need a hundred ROAs): by one delta and by one
+        // received certificate. Origin AS64513; everything of this phase is removed again at its end.
+        let mut script: Vec<(&str, P)> = Vec::new();
+        if hist % 3 != 2 {
+            let (d, g) = (thresholds.0 as usize, thresholds.1 as usize);
+            let a = |i: usize| format!("10.0.{}.0/24 => 64513", 100 + 4 * i);
+            // one delta: g simple ROAs; then "remove one, add two" crosses UP (g + 1 > g) while an existing one goes
+            script.push(("cross_add", P::Roas((0..g).map(a).collect(), vec![])));
+            script.push(("cross_up_with_removal", P::Roas(vec![a(g), a(g + 1)], vec![a(0)])));
+            script.push(("prelude_check", P::Check("after crossing the aggregation threshold upwards in a delta that also removes an authorisation")));
+            let mut cur: Vec<String> = (1..g + 2).map(a).collect();
+            if d >= 3 {
+                // one delta: all but one removed, one added: 2 < d crosses DOWN while a new one comes
+                script.push(("cross_down_with_addition", P::Roas(vec![a(g + 2)], (1..g + 1).map(a).collect())));
+                script.push(("prelude_check", P::Check("after crossing the de-aggregation threshold downwards in a delta that also adds an authorisation")));
+                cur = vec![a(g + 1), a(g + 2)];
+            }
+            script.push(("cross_cleanup", P::Roas(vec![], cur)));
+            // by certificate: p1 in atom 1, p2 in atom 2, g prefixes in atom 3; atom 0 (which b's child c needs) is always kept
+            let p1 = "10.1.200.0/24 => 64513".to_string();
+            let p2 = "10.2.200.0/24 => 64513".to_string();
+            let q: Vec<String> = (0..g).map(|i| format!("10.3.{}.0/24 => 64513", 100 + 4 * i)).collect();
+            let mut all = vec![p1.clone(), p2.clone()]; all.extend(q.iter().cloned());
+            script.push(("cross_add", P::Roas(all.clone(), vec![])));                 // g + 2 > g: aggregated
+            script.push(("cross_cert_none", P::Ent(0x01)));                           // nothing held: all ROAs go
+            script.push(("cross_cert_two", P::Ent(0x07)));                            // p1, p2 held: simple (2 <= g)
+            script.push(("cross_cert_up_dropping_one", P::Ent(0x0d)));                // one certificate: p1 lost, atom 3 gained: g + 1 > g, start aggregating
+            script.push(("prelude_check", P::Check("after a certificate that crosses the aggregation threshold upwards and drops a held prefix")));
+            script.push(("cross_cert_down_adding_one", P::Ent(0x03)));                // one certificate: everything held is lost, p1 gained: 1 < d stops aggregating under 3/5
+            script.push(("prelude_check", P::Check("after a certificate that crosses the de-aggregation threshold downwards and adds a prefix")));
+            script.push(("prelude_regrow", P::Ent(0x0f)));
+            script.push(("cross_cleanup", P::Roas(vec![], all)));
+        }
+        script.extend(vec![
             ("prelude_add", P::Roas(first.clone(), vec![])),                                  // 7 > 5 (and > 2): start aggregating
             ("prelude_remove", P::Roas(vec![], first[1..].to_vec())),                         // 1 left: stop aggregating under 3/5
             ("prelude_add", P::Roas(more.clone(), vec![])),                                   // 6: aggregate again
@@ -985,7 +1019,7 @@ fn run_history(args: &Args, hist: u64, seed: u64, n_ops: u64, every: u64, emptyc
             ("prelude_check", P::Check("after regaining atoms 2 and 3")),
             ("prelude_remove_all", P::Roas(vec![], vec![first[0].clone(), more[0].clone(), more[3].clone(), more[4].clone(), x2.clone(), s1.clone(), m1.clone()])),   // total 0 while aggregating
             ("prelude_add", P::Roas(vec![first[0].clone(), first[1].clone()], vec![])),       // from nothing: simple again
-        ];
+        ]);
         for (name, step) in script {
             if let P::Check(what) = &step { h.quiesce(); h.check(&json!({"point": "prelude", "what": what})); continue }
             let op = json!({"op": name, "ca": "b"});
